@@ -228,6 +228,34 @@ def run(ctx):
     common.reconstruction_is_uncached(ctx, 'C07.R2')
     common.version_group_setters_total(ctx, 'C07.R2')
     common.entity_getters_hand_out_copies(ctx, 'C07.R4')
+    ctx.borrow('C02', {'C02.R1'}, 'C07.R3', why='content and MdibVersion change together')
+    # writing a container into a response tree changes nothing on the container: the serialisers of the MDIB containers store no
+    # attribute (except a missing one they fill once: `if self.X is None: self.X = ..`) and call none of their own mutators
+    n_ser = 0
+    for q_, fi_ in sorted(repo.funcs.items()):
+        if not (q_.startswith(('sdc11073.mdib.statecontainers.', 'sdc11073.mdib.descriptorcontainers.', 'sdc11073.mdib.containerbase.'))
+                and fi_.name in ('mk_state_node', 'mk_node', 'mk_descriptor_node', 'update_node', 'mk_descriptor_node')):
+            continue
+        n_ser += 1
+        gs_ = cfg_of(fi_)
+        bad_ = []
+        for nn in gs_.real_nodes():
+            if nn.kind == 'stmt' and isinstance(nn.stmt, (ast.Assign, ast.AugAssign)):
+                for t in (nn.stmt.targets if isinstance(nn.stmt, ast.Assign) else [nn.stmt.target]):
+                    if isinstance(t, ast.Attribute) and unparse(t.value) == 'self':
+                        lazy = any(p is True and txt == f'self.{t.attr} is None' for txt, p in gs_.facts_at(nn).both())
+                        if not lazy or isinstance(nn.stmt, ast.AugAssign):
+                            bad_.append(unparse(nn.stmt)[:60])
+            for c in nn.calls():
+                if isinstance(c.func, ast.Attribute) and unparse(c.func.value) == 'self' and \
+                        c.func.attr.startswith(('update_descriptor', 'increment_', 'set_', 'update_from')):
+                    bad_.append(unparse(c)[:60])
+        ctx.ob('C07.R4', f'{fi_.cls.name}.{fi_.name} only reads', not bad_,
+               f'{fi_.cls.name}.{fi_.name} writes nothing on the container it serialises' if not bad_ else
+               f'{fi_.cls.name}.{fi_.name} changes the container while it is written into a response ({bad_[:2]}): the stored MDIB '
+               f'object changes without a transaction and without a new MdibVersion - two Get responses with the same '
+               f'MdibVersion differ', fi=fi_)
+    ctx.floor('C07.R4', n_ser, 4, 'serialisers of the MDIB containers')
     from .c05 import writers_copy_lxml_values
     writers_copy_lxml_values(ctx, 'C07.R2', used_in=['sdc11073.mdib.', 'sdc11073.xml_types.pm_types'], floor=1)   # building the next response tree takes no element out of the previous one
     common.copies_are_deep(ctx, 'C07.R4')   # a state object selected under the lock does not share values with a later copy
